@@ -246,4 +246,98 @@ theorem safeCond_of_highest (hb : 3 * c.powerOf c.byz < c.total)
       exact Or.inl (proposeQC_unique hb tr hv w bw b (lock_cert tr hv hf r hr w bw hl) hcert)
 
 end Cfg
+/-! ### pacemaker -/
+
+theorem foldl_max_ge_init (l : List Nat) (a : Nat) : a ≤ l.foldl Nat.max a := by
+  induction l generalizing a with
+  | nil => exact Nat.le_refl _
+  | cons x l ih => exact Nat.le_trans (Nat.le_max_left a x) (ih _)
+
+theorem foldl_max_ge_mem (l : List Nat) (a x : Nat) (hx : x ∈ l) : x ≤ l.foldl Nat.max a := by
+  induction l generalizing a with
+  | nil => cases hx
+  | cons y l ih =>
+    rcases List.mem_cons.mp hx with rfl | hx
+    · exact Nat.le_trans (Nat.le_max_right a x) (foldl_max_ge_init l _)
+    · exact ih _ hx
+
+theorem foldl_max_le (l : List Nat) (a M : Nat) (ha : a ≤ M) (hl : ∀ x ∈ l, x ≤ M) : l.foldl Nat.max a ≤ M := by
+  induction l generalizing a with
+  | nil => exact ha
+  | cons y l ih =>
+    exact ih _ (Nat.max_le.mpr ⟨ha, hl y List.mem_cons_self⟩) (fun x hx => hl x (List.mem_cons_of_mem _ hx))
+
+theorem filter_sum_mono (pw : Nat → Nat) (l : List (Nat × Nat)) (p q : Nat × Nat → Bool)
+    (h : ∀ x ∈ l, p x = true → q x = true) :
+    ((l.filter p).map fun c => pw c.1).sum ≤ ((l.filter q).map fun c => pw c.1).sum := by
+  induction l with
+  | nil => simp
+  | cons a l ih =>
+    have ih' := ih (fun x hx => h x (List.mem_cons_of_mem _ hx))
+    cases hp : p a
+    · cases hq : q a <;> simp [List.filter, hp, hq] <;> omega
+    · simp [List.filter, hp, h a List.mem_cons_self hp]; omega
+
+theorem filter_sum_le_total (pw : Nat → Nat) (l : List (Nat × Nat)) (p : Nat × Nat → Bool) :
+    ((l.filter p).map fun c => pw c.1).sum ≤ (l.map fun c => pw c.1).sum := by
+  induction l with
+  | nil => simp
+  | cons a l ih => cases hp : p a <;> simp [List.filter, hp] <;> omega
+
+/-- claims of rounds above `M` come from validators in `B` only ⇒ the pacemaker does not go above `M`
+    when the power of `B`'s claims does not pass the threshold test -/
+theorem pacemakerTarget_le (pw : Nat → Nat) (reached : Nat → Bool) (claims : List (Nat × Nat)) (inB : Nat → Bool) (M : Nat)
+    (hmono : ∀ a b, a ≤ b → reached a = true → reached b = true)
+    (hcorrect : ∀ c ∈ claims, inB c.1 = false → c.2 ≤ M)
+    (hB : reached (((claims.filter fun c => inB c.1).map fun c => pw c.1).sum) = false) :
+    pacemakerTarget pw reached claims ≤ M := by
+  unfold pacemakerTarget
+  apply foldl_max_le _ _ _ (Nat.zero_le _)
+  intro R hR
+  obtain ⟨_, hreach⟩ := List.mem_filter.mp hR
+  by_cases hRM : R ≤ M
+  · exact hRM
+  · exfalso
+    have hle : claimPower pw claims R ≤ ((claims.filter fun c => inB c.1).map fun c => pw c.1).sum := by
+      unfold claimPower
+      apply filter_sum_mono
+      intro c hc hdec
+      cases hb : inB c.1
+      · have := hcorrect c hc hb; simp at hdec; omega
+      · rfl
+    have := hmono _ _ hle hreach
+    rw [hB] at this; cases this
+
+/-- a claimed round that the threshold test accepts is reached -/
+theorem pacemakerTarget_ge (pw : Nat → Nat) (reached : Nat → Bool) (claims : List (Nat × Nat)) (R : Nat)
+    (hR : R ∈ claims.map (·.2)) (h : reached (claimPower pw claims R) = true) :
+    R ≤ pacemakerTarget pw reached claims := by
+  unfold pacemakerTarget
+  exact foldl_max_ge_mem _ _ _ (List.mem_filter.mpr ⟨hR, h⟩)
+
+theorem pacemakerStep_ge (pw : Nat → Nat) (reached : Nat → Bool) (claims : List (Nat × Nat)) (round : Nat) :
+    round + 1 ≤ pacemakerStep pw reached claims round ∧ pacemakerTarget pw reached claims ≤ pacemakerStep pw reached claims round := by
+  unfold pacemakerStep
+  simp only
+  split <;> omega
+
+
+/-! ### timers -/
+
+theorem waitTime_eq (s r : Nat) : Gen.Bft.waitTime s r = s * (2 * r + 1) := by
+  unfold Gen.Bft.waitTime; simp
+
+theorem roundLength_eq (t : Timeouts) (r : Nat) : t.roundLength r = t.sum * (2 * r + 1) := by
+  unfold Timeouts.roundLength Gen.Bft.msLeftInRound Timeouts.wait Timeouts.sum
+  simp only [waitTime_eq, Timeouts.of, Gen.Bft.phase_ELECTION, Gen.Bft.phase_ELECTION_VOTE, Gen.Bft.phase_PROPOSE,
+    Gen.Bft.phase_PROPOSE_VOTE, Gen.Bft.phase_PRECOMMIT, Gen.Bft.phase_PRECOMMIT_VOTE, Gen.Bft.phase_COMMIT]
+  simp
+  simp only [Nat.add_mul]
+
+/-- an offset `δ` between two replicas' round starts is smaller than every phase window from round `δ / tmin` on -/
+theorem offset_absorbed (δ tmin : Nat) (h : 0 < tmin) (k : Nat) (hk : δ / tmin ≤ k) : δ < tmin * (2 * k + 1) := by
+  have h1 : δ < tmin * (δ / tmin + 1) := Nat.lt_mul_div_succ δ h
+  have h2 : tmin * (δ / tmin + 1) ≤ tmin * (2 * k + 1) := Nat.mul_le_mul_left _ (by omega)
+  omega
+
 end Canopy.Bft
